@@ -11,7 +11,7 @@ from vk.paths import clean_reason
 
 PROPERTY = 'C05'
 LEVEL = 'exploration'
-RULE = ('generated valid documents of four schema families (nested complex types, attributes with defaults / fixed, simple '
+RULE = ('generated valid documents of six schema families, one in four written with the default namespace re-bound along the path (nested complex types, attributes with defaults / fixed, simple '
         'content, mixed content, lists, unions, qualified names, lax wildcards, xsi:type, nil) x converters {JsonML, data '
         'elements (to_objects), default, BadgerFish, GData - the last three only where same-named children are contiguous} x '
         'options {decimal_type, datetime_types, use_defaults}: encode(decode(d)) must be valid, equal to d in element '
